@@ -29,6 +29,7 @@ EXPLANATION = (
     ' (E11) the validator decomposes, compares and counts carbon on the rows it labels (shared with C01-R2); (E12) a side is parsed as a whole before its fragments are counted one by one.'
     " (E13) the per-fragment carbon count tests every atom by element (symbol / atomic number), never by a bare-symbol SMARTS. (E14) the comparator's functions do not edit the compositions they are given. (E15) reaction text is split at the whole separator, arguments folded under parameter defaults."
     ' (E16) a re-labelled both-sided difference is the given vector or its complete negation (shared with C08-D7). (E17) a value that may be a data-frame column is iterated, never subscripted with a positional loop counter.'
+    ' (E18) the per-reaction work of the processors is not partitioned into strided slices (results joined slice after slice are a permutation).'
 )
 ASSUMPTIONS = [
     "RDKit's AddHs/GetAtoms/GetFormalCharge/GetSymbol compute what their names say",
